@@ -406,11 +406,32 @@ func cloneDict(d *sim.Dict) *sim.Dict {
 
 func scenHostile(rng *rand.Rand, tr *sim.Trace, seg int, events int) {
 	o := opts{burst: -1, passive: rng.Intn(6) == 0, hook: rng.Intn(3) == 0, peerstore: rng.Intn(2) == 0, announcecb: rng.Intn(2) == 0,
-		resend: func() time.Duration { return 20 * time.Millisecond }}
+		secure: rng.Intn(2) == 0, resend: func() time.Duration { return 20 * time.Millisecond }}
 	entry := v4(47, 1, 1, 1, 7001)
 	o.startingNodes = func() ([]dht.Addr, error) { return []dht.Addr{dht.NewAddr(entry)}, nil }
 	h := newH(rng, tr, seg, o)
 	defer h.close()
+	// a reachable, non-empty state first: contacts in the table, peers announced, an item stored
+	if rng.Intn(3) != 0 {
+		for i := 0; i < 6; i++ {
+			src := h.randSrc()
+			wid := randID(rng)
+			if o.secure && rng.Intn(2) == 0 {
+				dht.SecureNodeId(&wid, src.IP)
+			}
+			h.conn.Inject((&query{method: "ping", t: h.nextT(), hasA: true, id: wid, port: -1}).encode(), src, 60*time.Second)
+			if !o.passive && rng.Intn(2) == 0 {
+				if tok := h.tokenQuiet(src); tok != nil {
+					ihw := randID(rng)
+					h.conn.Inject((&query{method: "announce_peer", t: h.nextT(), hasA: true, id: wid, ih: &ihw, port: 7000 + i, hasTok: true, tok: tok}).encode(), src, 60*time.Second)
+					h.conn.Inject((&query{method: "put", t: h.nextT(), hasA: true, id: wid, port: -1, hasTok: true, tok: tok,
+						extra: map[string]sim.Value{"v": []byte("stored value")}}).encode(), src, 60*time.Second)
+				}
+			}
+		}
+		sim.WaitQuiet(60 * time.Second)
+		h.conn.TakeAll()
+	}
 	// in-flight client operations whose replies the adversary crafts
 	_, priv, _ := ed25519.GenerateKey(rng)
 	var pub [32]byte
@@ -571,3 +592,21 @@ func scenHostile(rng *rand.Rand, tr *sim.Trace, seg int, events int) {
 type devNull struct{}
 
 func (devNull) Write(b []byte) (int, error) { return len(b), nil }
+
+// tokenQuiet fetches a write token without logging anything (used to set up state before hostile traffic).
+func (h *H) tokenQuiet(src *net.UDPAddr) []byte {
+	id := randID(h.rng)
+	t := h.nextT()
+	if !h.conn.Inject((&query{method: "get_peers", t: t, hasA: true, id: id, ih: &id, port: -1}).encode(), src, 60*time.Second) {
+		return nil
+	}
+	sim.WaitQuiet(60 * time.Second)
+	for _, of := range h.conn.TakeAll() {
+		if d, err := sim.DecodeDict(of.B); err == nil {
+			if tok, ok := d.Dict("r").Str("token"); ok {
+				return tok
+			}
+		}
+	}
+	return nil
+}
